@@ -48,7 +48,9 @@ OTHER_LIT = {"Int": ("Blob20", "b20:" + "5a" * 20), "String": ("Int", "i:7"), "F
 
 
 def prepare(tier):
-    return {"ex_vm": build.executor("asan", "ex_vm")}
+    # every case runs under a generated choice of the clang -O1 ASan build and the gcc -O0 build: arithmetic that
+    # overflows (a comparison computed as a difference) is folded away by one compiler and not by the other
+    return {"ex_vm": build.executor("asan", "ex_vm"), "ex_vm_plain": build.executor("plain", "ex_vm")}
 
 
 # ---- container histories (shared with c10) ------------------------------------------------
@@ -469,7 +471,8 @@ def strategy(tier):
         _related_blobs(), _related_blobs(),
         _seqs(), _seqs(), _nested(), _trees(), _trees())
     return st.fixed_dictionaries({"vals": vals,
-                                  "alloc": st.lists(st.sampled_from(ALLOCS), min_size=3, max_size=3)})
+                                  "alloc": st.lists(st.sampled_from(ALLOCS), min_size=3, max_size=3),
+                                  "cfg": st.sampled_from(["asan", "asan", "plain"])})
 
 
 # ---- encoding ---------------------------------------------------------------------------
@@ -738,7 +741,7 @@ def _events(case):
 
 
 def run_case(ctx, case):
-    ex = ctx.executor("ex_vm")
+    ex = ctx.executor("ex_vm_plain" if case.get("cfg") == "plain" else "ex_vm")
     lines, dumps = encode(case)
     prog = [l for l in lines if l != "mark"]
     pairs = [(i, j) for i in range(3) for j in range(3)]
